@@ -5,5 +5,4 @@ CONSTANTS
   Dedup = TRUE
   NameFn <- GoodName
 INVARIANTS Once Complete Injective NoDivergeIfFinite
-PROPERTY Terminates
 CHECK_DEADLOCK FALSE
